@@ -230,8 +230,21 @@ mod n {
         }
         txt.push_str("    ");
         s.replace_range(pg..end, &txt);
+        // rectangular shades (origin, width, height, BDL azimuth of the outward normal clockwise from +Y, tilt)
+        let sh = s.find("\"Sombra007\" = BUILDING-SHADE").expect("a BUILDING-SHADE block");
+        let mut blocks = String::new();
+        for (name, x, y, z, w, h, az, tilt) in RECT_SHADES.iter() {
+            blocks.push_str(&format!("\"{}\" = BUILDING-SHADE\n      BULB-TRA = \"Default.bulb\"\n      BULB-REF = \"Default.bulb\"\n      TRAN     =              0\n      REFL     =            0.7\n      X        = {}\n      Y        = {}\n      Z        = {}\n      HEIGHT   = {}\n      WIDTH    = {}\n      TILT     = {}\n      AZIMUTH  = {}\n           ..\n", name, x, y, z, h, w, tilt, az));
+        }
+        s.insert_str(sh, &blocks);
         s
     }
+
+    const RECT_SHADES: [(&str, f32, f32, f32, f32, f32, f32, f32); 3] = [
+        ("vrf_screen_east", 12.0, 3.0, 0.0, 8.0, 6.0, 90.0, 90.0),
+        ("vrf_screen_ssw", -5.0, 20.0, 1.5, 10.0, 4.0, 200.0, 90.0),
+        ("vrf_canopy_nw", 4.0, -7.0, 3.0, 5.0, 3.0, 315.0, 60.0),
+    ];
 
     fn world_corners(g: &WallGeom) -> Vec<Point3<f32>> {
         let m = g.to_global_coords_matrix().expect("positioned");
@@ -333,6 +346,22 @@ mod n {
                         let want: Vec<_> = verts.iter().map(|v| rot * point![v.x, v.y, v.z]).collect();
                         let got = world_corners(&ms.geometry);
                         c.check("C03.shade.corners", same_set(&got, &want, 0.011), || format!("shade {}: corners {:?} want {:?}", sh.name, got, want));
+                    }
+                }
+            }
+            // rectangular shades keep their corner points: origin, width to the right seen from outside, height up the slope
+            for (name, x, y, z, w, h, az, tilt) in RECT_SHADES.iter() {
+                match model.shades.iter().find(|m| m.name == *name) {
+                    None => c.check("C03.shade.rect.present", false, || format!("rectangular shade {} missing", name)),
+                    Some(ms) => {
+                        let (a, t) = (az.to_radians(), tilt.to_radians());
+                        let n_h = Vector3::new(a.sin(), a.cos(), 0.0);
+                        let u = Vector3::new(-a.cos(), a.sin(), 0.0);
+                        let v = -t.cos() * n_h + t.sin() * Vector3::z();
+                        let o = point![*x, *y, *z];
+                        let want: Vec<_> = [o, o + *w * u, o + *w * u + *h * v, o + *h * v].iter().map(|p| rot * p).collect();
+                        let got = world_corners(&ms.geometry);
+                        c.check("C03.shade.rect.corners", same_set(&got, &want, 0.011), || format!("rectangular shade {}: corners {:?} want {:?}", name, got, want));
                     }
                 }
             }
